@@ -40,10 +40,28 @@ def _summary(path):
             out["colr_base_glyphs"] = [r.BaseGlyph for r in recs]
         else:
             out["colr_base_glyphs"] = sorted(colr.ColorLayers.keys())
+    def _png_size(data):
+        if data and data[:8] == b"\x89PNG\r\n\x1a\n":
+            import struct
+
+            return list(struct.unpack(">II", data[16:24]))
+        return None
+
     if "CBLC" in f:
         out["cblc_ppem"] = [[s.bitmapSizeTable.ppemX, s.bitmapSizeTable.ppemY] for s in f["CBLC"].strikes]
+        px = {}
+        for strike in f["CBDT"].strikeData:
+            for g, bm in strike.items():
+                px[g] = _png_size(getattr(bm, "imageData", None))
+        out["bitmap_px"] = px
     if "sbix" in f:
         out["sbix_ppem"] = sorted(f["sbix"].strikes.keys())
+        px = {}
+        for strike in f["sbix"].strikes.values():
+            for g, gl in strike.glyphs.items():
+                if getattr(gl, "imageData", None):
+                    px[g] = _png_size(gl.imageData)
+        out["bitmap_px"] = px
     if "SVG " in f:
         out["svg_docs"] = len(f["SVG "].docList)
         out["svg_compressed"] = [bool(getattr(d, "compressed", False)) for d in f["SVG "].docList]
